@@ -402,6 +402,49 @@ func FamConstStore(t Type, emit func(Gen)) {
 	}
 }
 
+// FamConstFlow: an untyped literal flowing into a typed slot by every other route than a plain store: returned
+// from a function, passed as an argument, initialising a declaration, compared with, and as either operand of
+// every binary operator (division and modulo with a non-zero literal divisor).
+func FamConstFlow(t Type, emit func(Gen)) {
+	a, b := Var{Name: "a"}, Var{Name: "b"}
+	vw := t.W
+	if t.Signed {
+		vw--
+	}
+	var lits []int64
+	for _, v := range []int64{1, 7, 1<<31 - 1, 1 << 31, 1<<32 - 1, 1 << 32, 1 << 40, 1<<62 + 5} {
+		if vw >= 63 || v < 1<<uint(vw) {
+			lits = append(lits, v)
+		}
+	}
+	one1 := func(fam string, rts []Type, fs []Func, body []Stmt) {
+		emit(Gen{fam, &Program{Funcs: append(fs, mainFn(ab(t), rts, body))}})
+	}
+	for _, v := range lits {
+		c := UConst{T: t, V: v}
+		g := Func{Name: "g", Params: []Param{{Name: "u", T: t}}, Results: []Type{t}, Body: []Stmt{
+			If{Cond: Bin{Op: "<", L: Var{Name: "u"}, R: c}, Then: []Stmt{Return{X: []Expr{c}}}},
+			Return{X: []Expr{Var{Name: "u"}}}}}
+		h := Func{Name: "h", Params: []Param{{Name: "u", T: t}, {Name: "v", T: t}}, Results: []Type{t}, Body: []Stmt{
+			Return{X: []Expr{Bin{Op: "^", L: Bin{Op: "+", L: Var{Name: "u"}, R: Var{Name: "v"}}, R: Var{Name: "v"}}}}}}
+		one1("const-flow-return", []Type{t}, []Func{g}, []Stmt{Return{X: []Expr{Bin{Op: "+", L: Call{Fn: "g", Args: []Expr{a}}, R: b}}}})
+		one1("const-flow-argument", []Type{t}, []Func{h}, []Stmt{Return{X: []Expr{Bin{Op: "+", L: Call{Fn: "h", Args: []Expr{a, c}}, R: Call{Fn: "h", Args: []Expr{c, b}}}}}})
+		one1("const-flow-var-init", []Type{t, t}, nil, []Stmt{VarInit{Name: "x", T: t, X: c}, Define{Name: "y", X: Bin{Op: "+", L: Var{Name: "x"}, R: a}},
+			If{Cond: Bin{Op: "<", L: b, R: c}, Then: []Stmt{Assign{Name: "x", X: b}}}, Return{X: []Expr{Var{Name: "x"}, Var{Name: "y"}}}})
+		for _, op := range cmps {
+			one1("const-flow-compare", []Type{BoolT, BoolT}, nil, []Stmt{Return{X: []Expr{Bin{Op: op, L: a, R: c}, Bin{Op: op, L: c, R: b}}}})
+		}
+		for _, op := range append(append([]string{}, arith...), "/", "%") {
+			one1("const-flow-operand", []Type{t}, nil, []Stmt{Return{X: []Expr{Bin{Op: op, L: a, R: c}}}})
+			if op != "/" && op != "%" {
+				one1("const-flow-operand", []Type{t}, nil, []Stmt{Return{X: []Expr{Bin{Op: op, L: c, R: b}}}})
+			} else {
+				one1("const-flow-operand", []Type{t}, nil, []Stmt{Return{X: []Expr{Bin{Op: op, L: c, R: Bin{Op: "|", L: b, R: one(t)}}}}})
+			}
+		}
+	}
+}
+
 // FamCall: helper functions with 1..3 results, arguments aliasing the same variable.
 func FamCall(t Type, emit func(Gen)) {
 	a, b, u, v := Var{Name: "a"}, Var{Name: "b"}, Var{Name: "u"}, Var{Name: "v"}
@@ -513,6 +556,7 @@ func Statements(quick bool, emit func(Gen)) {
 	}
 	for _, t := range storeTypes {
 		FamConstStore(t, emit)
+		FamConstFlow(t, emit)
 	}
 }
 
